@@ -20,8 +20,18 @@ func AuHeader(tsms int64, seq uint32) string {
 
 // AuLogin renders a kernel LOGIN record.
 func AuLogin(tsms int64, seq uint32, pid string, ses string) string {
-	return fmt.Sprintf("type=LOGIN %s pid=%s uid=0 old-auid=4294967295 auid=1000 tty=(none) old-ses=4294967295 ses=%s res=1",
-		AuHeader(tsms, seq), pid, ses)
+	return AuLoginFrom(tsms, seq, pid, ses, "4294967295")
+}
+
+// AuLoginFrom: a LOGIN record of a process that already lived in audit session
+// oldSes (su -l, sudo -i, a service restarted by hand from a login shell).
+func AuLoginFrom(tsms int64, seq uint32, pid string, ses string, oldSes string) string {
+	oldAuid := "4294967295"
+	if oldSes != "4294967295" {
+		oldAuid = "1000"
+	}
+	return fmt.Sprintf("type=LOGIN %s pid=%s uid=0 old-auid=%s auid=1000 tty=(none) old-ses=%s ses=%s res=1",
+		AuHeader(tsms, seq), pid, oldAuid, oldSes, ses)
 }
 
 // AuUser renders a user-space record (USER_START, USER_END, CRED_ACQ,
